@@ -573,6 +573,8 @@ class LoopMixin:
         if not (isinstance(fv.extra, tuple) and fv.extra[0] == "bmethod"):
             return None
         recv = fv.extra[1]
+        if isinstance(recv.t, sym.TDict) and f.attr == "pop" and isinstance(f.value, (ast.Name, ast.Attribute)) and len(e.args) == 1 and not e.keywords:
+            return self.dict_pop(recv, f.value, e, st)
         if not isinstance(recv.t, TList):
             return None
         lv = f.value
@@ -672,8 +674,34 @@ class LoopMixin:
         return out
 
 
+def _dict_pop(self, d, lv, e, st):
+    """d.pop(key) on a dict held in a variable / attribute: KeyError when the key is absent; otherwise the value, and the dict
+    without that key (the other keys keep their values; the key order of the rest is not modelled)."""
+    out = []
+    for s2, vals in self.ev_list(list(e.args), st):
+        if isinstance(vals, Raised):
+            out.append((s2, vals))
+            continue
+        k = sym.coerce(self.reify(vals[0]), d.t.k)
+        has, val, keys = d.extra["has"], d.extra["val"], d.extra["keys"]
+        self.partial(s2, z3.Select(has, k.z), "KeyError", e)
+        ret = SV(d.t.v, z3.Select(val, k.z))
+        new = sym.fresh(d.t, "dpop")
+        q = z3.Const(sym.fresh_name("dk"), sym.sort_of(d.t.k))
+        s2.assume(new.extra["has"] == z3.Store(has, k.z, z3.BoolVal(False)))
+        s2.assume(new.extra["val"] == val)
+        s2.assume(z3.ForAll([q], z3.Select(new.extra["has"], q) == z3.Contains(new.extra["keys"], z3.Unit(q))))
+        s2.assume(z3.Length(new.extra["keys"]) == z3.Length(keys) - 1)
+        for s3, oc in self.assign(_as_store(lv), new, s2):
+            out.append((s3, oc.value if oc.kind == "raise" else ret))
+    return out
+
+
 def _as_store(lv):
     t = ast.parse(f"{ast.unparse(lv)} = 0").body[0].targets[0]
     for n in ast.walk(t):
         ast.copy_location(n, lv)
     return t
+
+
+LoopMixin.dict_pop = _dict_pop
